@@ -117,6 +117,12 @@ pub fn run(tier: Tier) -> i32 {
         Tier::Thorough => starts(),
     };
     let mut r = bfs(&ctx, &C04, &st, depth);
+    let tiny = tiny_starts();
+    let rt = bfs(&ctx, &C04, &tiny, depth + 1);
+    r.stats = r.stats.merge(rt.stats);
+    r.states += rt.states;
+    r.transitions += rt.transitions;
+    r.levels.extend(rt.levels);
     let sw = sweep_starts(tier);
     let r2 = sweep_depth1(&ctx, &C04, &sw);
     r.stats = r.stats.merge(r2.stats);
@@ -131,7 +137,7 @@ pub fn run(tier: Tier) -> i32 {
         "transitions": r.transitions,
         "traces_validated_against_impl": r.transitions,
         "rule": "states = distinct canonical forests (sorted multiset of canonical trees + consolidation bits + capped stale-handle count); every transition is one public API call executed on the real Xot; non-trivial = reached by at least one call that returned",
-        "bounds": {"bfs_depth": depth, "starts": st.len(), "depth1_sweep_starts": sw.len()},
+        "bounds": {"bfs_depth": depth, "starts": st.len(), "tiny_starts_one_level_deeper": tiny.len(), "depth1_sweep_starts": sw.len()},
         "levels_completed": r.levels.iter().filter(|l| !l["start"].as_str().unwrap_or("").starts_with("sweep:")).collect::<Vec<_>>(),
     });
     ctx.finish(r.stats, cov, vec!["the canonical key drops arena slot numbers; stale-handle count (capped at 2) is kept (DESIGN 2.4)".into()])
